@@ -231,3 +231,41 @@ func VerifHarness_C10_LegacyRepeats() {
 	}
 	verifReach("returned")
 }
+
+// query words made of or containing punctuation that also stand verbatim in a command's text
+// (c++, "(release", "[dir", a trailing backslash, *.go, file?) through every entry point
+func VerifHarness_C10_PunctWords() {
+	mk := func(cmd, desc string) Command {
+		c := Command{Command: cmd, Description: desc, Keywords: []string{"c++", "*.go"}}
+		vFill(&c)
+		return c
+	}
+	db := &Database{Commands: []Command{
+		mk("g++ -o app main.cpp", "compile c++ code"), mk("git tag v1", "tag a (release build)"), mk("ls [dir", "list [dir contents"),
+		mk("cd a\\", "path a\\ b"), mk("find . -name '*.go'", "find *.go files"), mk("which file?", "is file? there"), mk("a|b", "x{2 y"), mk("^start end$", "+plus"),
+	}}
+	db.BuildUniversalIndex()
+	db.buildTFIDFSearcher()
+	q := []string{"c++", "compile c++", "(release", "[dir", "a\\", "*.go", "file?", "x{2", "a|b", "^start", "end$", "+plus", "(", "\\"}[verifIntRange("query", 0, 13)]
+	o := SearchOptions{Limit: 5, AllPlatforms: true}
+	switch verifIntRange("entry", 0, 6) {
+	case 0:
+		_ = db.SearchWithOptions(q, o)
+	case 1:
+		_ = db.SearchWithPipelineOptions(q, o)
+	case 2:
+		_ = db.Search(q, 5)
+	case 3:
+		o.UseFuzzy = true
+		_ = db.SearchWithFuzzy(q, o)
+	case 4:
+		_ = db.SearchWithNLP(q, o)
+	case 5:
+		o.UseNLP = verifBool("nlp")
+		o.UseFuzzy = true
+		_ = db.SearchUniversal(q, o)
+	case 6:
+		_ = db.GetSuggestions(q, 3)
+	}
+	verifReach("returned")
+}
